@@ -117,6 +117,10 @@ class F:
             return "%s(%s)" % (self.cls, args)
         res = {"void": "void", "int": "int", "long": "long", "double": "double", "bool": "bool",
                "cstr": "const char *", "string": "const std::string"}[self.result]
+        if self.result == "string" and any(p.default is not None for p in self.params):
+            # (`const std::string SHCXX_rv;` is declared before the default-argument switch and assigned
+            #  inside it: the generated file does not compile - outside C03, see C05)
+            res = "std::string"
         return "%s%s %s(%s)" % ("static " if self.static else "", res, self.name, args)
 
     @property
